@@ -295,12 +295,29 @@ def P11():
     )
 
 
+def P12():
+    """Control Jacobian depends on the control values but on no state; process Jacobian depends on state only:
+    the shape on which a Jacobian memoised per dt / per state goes stale."""
+    s_, r, a, b, dt = V("s"), V("r"), V("a"), V("b"), V("dt")
+    return Program(
+        id="P12-ctlnl",
+        state=["s", "r"],
+        control=["b", "a"],
+        calibration=[],
+        update={"s": s_ + X.sin(a) * dt + a * b * dt, "r": r * s_ + b * b * dt},
+        process_noise={"b": 0.5, "a": 0.25},
+        sensors={"prod": {"m": s_ * r}, "lin": {"n": s_ + 2 * r}},
+        sensor_noise={"prod": {"m": 0.5}, "lin": {"n": 0.25}},
+        note="V depends on controls only; sensor 'prod' is bilinear (second derivatives w.r.t. each state vanish), 'lin' is linear",
+    )
+
+
 def quick_programs():
     return [P1(), P3(), P8()]
 
 
 def all_fixed():
-    return [P1(), P2(), P3(), P7(), P8(), P10()]
+    return [P1(), P2(), P3(), P7(), P8(), P10(), P12()]
 
 
 def presence_variants(p):
